@@ -43,6 +43,8 @@ def main():
            expect_violation="Determinacy")
     ck.tlc("CallHistory", "CallHistory_defect.cfg", count=False,
            expect_violation="Determinacy")
+    ck.tlc("CallHistory", "CallHistory_nef.cfg", count=False,
+           expect_violation="Determinacy")
 
     def quiet(fn, *a, **kw):
         with contextlib.redirect_stdout(io.StringIO()):
@@ -71,6 +73,11 @@ def main():
             self.sbi = ag.get_SystemBathInteraction()
             self.RT, self.HH = ag.get_RelaxationTensor(
                 self.ta, relaxation_theory="standard_Redfield")
+            # non-equilibrium Foerster theory: the tensor carries a term
+            # computed from the submitted initial state; ONE state object is
+            # shared by all propagations and re-used in place
+            # (built on first use: the tensor is expensive)
+            self._nef = False
             self.tprop = qr.TimeAxis(0.0, 25, 2.0)          # dt != 1
             n = self.HH.dim
             self.prop = ReducedDensityMatrixPropagator(self.tprop, self.HH,
@@ -103,6 +110,15 @@ def main():
                 self.teso, ham=self.HH, relt=self.RT, pdeph=self.pdG)
             self.esoG.set_dense_dt(4)
 
+        def nef(self):
+            if not self._nef:
+                self.RTn, self.HHn = self.ag.get_RelaxationTensor(
+                    self.ta, relaxation_theory="neF", time_dependent=True)
+                self.propN = ReducedDensityMatrixPropagator(
+                    self.ta, self.HHn, self.RTn)
+                self.rhoN = qr.ReducedDensityMatrix(dim=self.HHn.dim)
+                self._nef = True
+
         def fingerprint(self):
             def h(a):
                 return hashlib.sha1(numpy.ascontiguousarray(
@@ -118,6 +134,9 @@ def main():
                 self.sbi.CC.get_coft(i, i) for i in range(self.sbi.N)]))
             fp["RT.data"] = h(self.RT._data)
             fp["RT.basis"] = self.RT.get_current_basis()
+            if self._nef:
+                fp["RTn.data"] = h(self.RTn._data)
+                fp["HHn.data"] = h(self.HHn._data)
             fp["rho0"] = h(self.rho0._data)
             fp["psi0"] = h(self.psi0.data)
             fp["p0"] = h(self.p0)
@@ -161,6 +180,17 @@ def main():
                     d = numpy.array(RT.data)
                     out.append(d if d.ndim == 4 else d[-1])
                 return numpy.array(out)
+            if name in ("nef_propagate", "nef_eso_calculate"):
+                self.nef()
+            if name == "nef_propagate":
+                self.rhoN.data[:, :] = 0.0
+                self.rhoN.data[arg, arg] = 1.0
+                r = quiet(self.propN.propagate, self.rhoN)
+                return numpy.array(r.data)
+            if name == "nef_eso_calculate":
+                e = qr.qm.EvolutionSuperOperator(self.ta, self.HHn, self.RTn)
+                quiet(e.calculate)
+                return numpy.array(e.data)
             if name == "heom_propagate":
                 r = quiet(self.kprop.propagate, self.rho0)
                 return numpy.array(r.data)
@@ -212,6 +242,10 @@ def main():
          ("pop_propagate", None), ("rdm_propagate", 1)],
         [("set_refinement", 2), ("rdm_propagate", 1), ("build_tensor", True),
          ("rdm_propagate", 1)],
+        [("nef_propagate", 1), ("nef_propagate", 2), ("nef_propagate", 1),
+         ("nef_eso_calculate", None)],
+        [("nef_propagate", 2), ("nef_eso_calculate", None),
+         ("rdm_propagate", 1), ("nef_propagate", 2)],
     ]
     seqs = [(q, v) for v in ("dimer", "trimer") for q in canon]
     for beh in behs:
@@ -226,17 +260,26 @@ def main():
                 seq.append(("build_tensor", bool(a[0])))
             elif act == "HeomPropagate":
                 seq.append(("heom_propagate", None))
+            elif act == "NefPropagate":
+                seq.append(("nef_propagate", a[0]))
             elif act == "Stateless":
                 seq.append((a[0], None))
         if seq:
             seqs.append((seq, "dimer" if len(seqs) % 2 else "trimer"))
 
     for si, (seq, variant) in enumerate(seqs):
+        if variant == "trimer" and not ck.thorough:
+            # (the neF tensor of the trimer takes 1.3 s to build: thorough)
+            seq = [c for c in seq if not c[0].startswith("nef")]
+            if not seq:
+                continue
         w = World(ck.seed, variant)
         user_nref = 1
         polluted = False      # propagate(Nref>1) happened, no explicit reset
         hist = []
         for (name, arg) in seq:
+            if name.startswith("nef"):
+                w.nef()
             fp0 = w.fingerprint()
             rp = dict(kind="history", world=variant,
                       history=hist + [[name, arg]])
